@@ -23,6 +23,15 @@
 (*   Tick      the crontab fires, a Schedule context is queued             *)
 (*   Request   an admission / conversion request arrives (never queued     *)
 (*             behind anything: always an array of one)                    *)
+(*   BootTick / BootRequest   the same two while the kubernetes bindings   *)
+(*             are NOT enabled (no Enable yet: the webhook server answers  *)
+(*             requests as soon as the operator is up, the hook's          *)
+(*             EnableKubernetesBindings task may still be queued or keep   *)
+(*             failing; monitors stopped).  A binding that is not enabled  *)
+(*             has no objects to show: `snapshots` still has a key for     *)
+(*             every included / grouped binding, each an EMPTY ARRAY       *)
+(*             ("a map that contains an up-to-date lists of objects for    *)
+(*             each binding name").                                        *)
 (* `pending` is the list of contexts queued for the hook and not yet run.  *)
 (* In every state with pending # <<>> the hook may run: the file it reads  *)
 (* is  File == [i \in 1..n |-> Render(Compact(pending)[i])]  evaluated     *)
@@ -60,6 +69,7 @@ Objs == ObjsA \cup ObjsB
 NoAux == [on |-> FALSE, jq |-> "none", keep |-> TRUE, grp |-> "", inc |-> "none"]
 NoOther == [kind |-> "none", named |-> TRUE, grp |-> "", inc |-> "none"]
 AllTrigs == {"StartUp", "Sync", "Add", "Mod", "Del", "Tick", "Request"}
+BootTrigs == {"BootTick", "BootRequest"}     \* not in the default slice: a slice asks for them explicitly
 
 (* A slice = product of option sets + bounds.  MC_*.tla define Slices as variations of this one. *)
 DefaultSlice ==
@@ -145,7 +155,11 @@ Item(k, o, s) == [name |-> o, state |-> s,
                   hasFilter |-> Jq(k) # "none",
                   filterValue |-> IF Jq(k) # "none" THEN FilterValue(k) ELSE "-"]
 
-Snapshot(k) == { Item(k, o, cluster[o]) : o \in Present(k) }
+(* the kubernetes bindings have been enabled (the monitors exist) *)
+Enabled == \E i \in DOMAIN hist : hist[i][1] = "Enable"
+
+(* the list of objects of kubernetes binding k; a binding that is not enabled has none to show: the empty list *)
+Snapshot(k) == IF Enabled THEN { Item(k, o, cluster[o]) : o \in Present(k) } ELSE {}
 Snapshots(r) == [b \in {Name(k) : k \in EffInc(r)} |->
                    Snapshot(CHOOSE k \in EffInc(r) : Name(k) = b)]
 
@@ -266,7 +280,18 @@ Request == /\ phase = "run" /\ pending = <<>> /\ May("Request") /\ cfg.other.kin
            /\ pending' = <<Ctx("other", ReqType, "-", "-", "-")>>
            /\ phase' = "closed" /\ hist' = Append(hist, <<"Request">>) /\ UNCHANGED <<sl, cfg, init0, cluster>>
 
-Next == StartUp \/ Enable \/ Tick \/ Request \/ \E o \in Objs : ObjAdd(o) \/ ObjMod(o) \/ ObjDel(o)
+(* the same two while nothing is enabled; the context is rendered before any Enable *)
+BootTick == /\ phase = "boot" /\ pending = <<>> /\ May("BootTick") /\ cfg.ver = "v1" /\ cfg.other.kind = "schedule"
+            /\ EffInc("other") # {}          \* only contexts that carry `snapshots` differ from the enabled case
+            /\ pending' = <<Ctx("other", "Schedule", "-", "-", "-")>>
+            /\ phase' = "closed" /\ hist' = Append(hist, <<"Tick">>) /\ UNCHANGED <<sl, cfg, init0, cluster>>
+BootRequest == /\ phase = "boot" /\ pending = <<>> /\ May("BootRequest") /\ cfg.ver = "v1"
+               /\ cfg.other.kind \in {"validating", "mutating", "conversion"}
+               /\ EffInc("other") # {}
+               /\ pending' = <<Ctx("other", ReqType, "-", "-", "-")>>
+               /\ phase' = "closed" /\ hist' = Append(hist, <<"Request">>) /\ UNCHANGED <<sl, cfg, init0, cluster>>
+
+Next == StartUp \/ Enable \/ Tick \/ Request \/ BootTick \/ BootRequest \/ \E o \in Objs : ObjAdd(o) \/ ObjMod(o) \/ ObjDel(o)
 
 Spec == Init /\ [][Next]_vars
 
@@ -330,8 +355,15 @@ SnapshotsAreCurrent == \A x \in Rendered :
   /\ "objects" \in x.keys => {it.name : it \in x.objects} = Present(RoleByName(x.binding))
                            /\ \A it \in x.objects : it.state = cluster[it.name]
   /\ "snapshots" \in x.keys => \A b \in DOMAIN x.snapshots :
-                           /\ {it.name : it \in x.snapshots[b]} = Present(RoleByName(b))
+                           /\ {it.name : it \in x.snapshots[b]} = (IF Enabled THEN Present(RoleByName(b)) ELSE {})
                            /\ \A it \in x.snapshots[b] : it.state = cluster[it.name]
+(* a context rendered while the kubernetes bindings are not enabled: every included / grouped binding still has its key,
+   and the value is a list - the empty one *)
+SnapshotsBeforeEnable == \A i \in DOMAIN File :
+  LET c == Compact(pending)[i] IN
+  (~Enabled /\ "snapshots" \in File[i].keys) =>
+     /\ DOMAIN File[i].snapshots = {Name(k) : k \in EffInc(c.role)}
+     /\ \A b \in DOMAIN File[i].snapshots : File[i].snapshots[b] = {}
 EventObjectIsEventTime == \A i \in DOMAIN File :
   LET c == Compact(pending)[i] IN
   File[i].hasItem => File[i].item.name = c.o /\ File[i].item.state = c.s
@@ -342,6 +374,7 @@ TypeOK == /\ sl \in Slices /\ cfg \in ConfigsOf(sl) /\ phase \in {"boot", "run",
 (* ------------------------------ case export ------------------------------ *)
 Emit == pending # <<>> =>
   PrintT("@@" \o ToJson([cfg |-> cfg,
+                         enabled |-> Enabled,
                          names |-> [main |-> Name("main"), aux |-> Name("aux"), other |-> Name("other")],
                          init |-> init0,
                          steps |-> hist,
